@@ -29,7 +29,9 @@ def drive_case(case, extra):
     rec = dict(case)
     if case["kind"] == "coeff":
         e = ser.from_json(case["e"])
-        names = None if case["tgt"] == ["ALL"] else list(case["tgt"])
+        # the collection of names is given as a list / tuple / set / frozenset in turn
+        names = None if case["tgt"] == ["ALL"] else \
+            (list, tuple, set, frozenset)[case["id"] % 4](case["tgt"])
         rec["res"] = _coeff_res(lambda: CoefficientCollector(names)(e))
     else:
         eqs = [(ser.from_json(q["lhs"]), ser.from_json(q["rhs"])) for q in case["exprs"]]
